@@ -38,6 +38,8 @@ GetWatchesCovers(p, e) == (e.ev = "step" /\ e.op = "GetWatches" /\ e.fin /\ e.r 
 \* a start request that found a watch's informer inactive (re-)establishes the watch
 Reestablish(e) == (e.ev = "step" /\ e.op = "StartWatches" /\ e.fin /\ e.r = "ok" /\ e.seg > 1 /\ e.inst # 0) =>
                      \A w \in Range(e.ra) : (w \notin Range(e.snapshot) /\ e.inst \notin Range(e.post.stopped)) => Live(e, e.inst, w) # {}
+\* after every controller was stopped (end of a stress run) every instance ever started is cancelled
+AllStopped(e) == (e.ev = "quiescent" /\ e.op = "stopall") => Cardinality(Range(e.post.cancelled)) = e.post.ninst
 \* no operation hangs
 NoDeadlock(e) == e.ev # "hung"
 
@@ -50,6 +52,7 @@ Check(i) ==
   /\ (GcOnlyComposed(e) \/ Viol("GcOnlyUnused.NotComposed", i))
   /\ (GcOnlyUnreferenced(e) \/ Viol("GcOnlyUnused.Referenced", i))
   /\ (Reestablish(e) \/ Viol("Reestablish", i))
+  /\ (AllStopped(e) \/ Viol("StopClean.NotCancelled", i))
   /\ (NoDeadlock(e) \/ Viol("NoDeadlock", i))
   /\ (e.ev = "reset" \/ i = 1 \/
         LET p == Trace[i - 1] IN
